@@ -150,8 +150,19 @@ def _pretty_altbox(value, ctx):
 def build_call(r, build):
     # ['call', kind, [args], [[name, val]..]]
     _, kind, args, kwargs = r
+    if kind == 'ns':        # a SimpleNamespace with these attributes (no positional part)
+        import types
+        return types.SimpleNamespace(**{k: build(v) for k, v in kwargs})
+    if kind == 'nt':        # a namedtuple with two fields: values from the keyword part, None where missing
+        vals = {k: build(v) for k, v in kwargs}
+        return PairNT(vals.get('a'), vals.get('b'))
     cls = {'box': Box, 'alt': AltBox, 'inner': Outer.Inner}[kind]
     return cls(*[build(a) for a in args], **{k: build(v) for k, v in kwargs})
+
+
+import collections as _coll
+PairNT = _coll.namedtuple('PairNT', 'a b')
+PairNT.__module__ = __name__
 
 
 def map_call(r, f):
